@@ -25,12 +25,14 @@ func GenConfig(r *payload.SplitMix, manualFlush bool) Config {
 	soft := r.Intn(2) == 0
 	capn := payload.Pick(r, NetCaps)
 	maxbuf := payload.Pick(r, []int{0, 1 << 20})
+	// the stream's own MaximumBufferSize only decides which marshal buffers are kept for reuse
+	smax := payload.Pick(r, []int{0, 0, 0, 64, 1024, 65536})
 	mk := func() drpcmanager.Options {
 		return drpcmanager.Options{
 			WriterBufferSize: wsize,
 			SoftCancel:       soft,
 			Reader:           drpcwire.ReaderOptions{MaximumBufferSize: maxbuf},
-			Stream:           drpcstream.Options{SplitSize: split, ManualFlush: manualFlush},
+			Stream:           drpcstream.Options{SplitSize: split, ManualFlush: manualFlush, MaximumBufferSize: smax},
 		}
 	}
 	chunk := func() simnet.Chunker {
@@ -48,7 +50,7 @@ func GenConfig(r *payload.SplitMix, manualFlush bool) Config {
 	return Config{
 		Net:    simnet.Opts{Cap: capn, ChunkA: ca, ChunkB: cb},
 		Client: mk(), Server: mk(),
-		Desc: fmt.Sprintf("split=%d wbuf=%d soft=%v manual=%v cap=%d maxbuf=%d chunkA=%T chunkB=%T", split, wsize, soft, manualFlush, capn, maxbuf, ca, cb),
+		Desc: fmt.Sprintf("split=%d wbuf=%d soft=%v manual=%v cap=%d maxbuf=%d keepbuf=%d chunkA=%T chunkB=%T", split, wsize, soft, manualFlush, capn, maxbuf, smax, ca, cb),
 	}
 }
 
